@@ -16,7 +16,9 @@ func init() {
 			"R2 no Replace call in the module is given text derived from the request (headers, URL, cookies, host) or from another Replace; " +
 			"R3 the log handler hands the recorder (not the raw writer) to the next handler and to its own fallback error writer; the recorder updates its status on every WriteHeader and its size after every successful Write, unconditionally, and {status}/{size} read exactly those fields; " +
 			"R4 an unknown placeholder yields the empty-value marker; " +
-			"R5 every matching log rule must log (known finding: only the first does).",
+			"R5 every matching log rule must log (known finding: only the first does); " +
+			"R6 every update of the recorded size, anywhere in the module, adds a count reported by the wrapped writer for a call made directly on it (no byte counted twice); " +
+			"R7 the except test reads the URL copy taken before the next handler ran.",
 		notDecided: "concurrency of log writes; byte-exact {size} for hijacked connections or writers outside the module.",
 	})
 }
@@ -30,6 +32,8 @@ func runC20(r *Report, p *Program) {
 	c20R3(h)
 	c20R4(h)
 	c20R5(h)
+	c20R6(h)
+	c20R7(h)
 }
 
 func c20R1(h H) {
